@@ -117,7 +117,9 @@ func CheckKeys(
 	ed25519Keys map[KeyID]spec.Base64Bytes,
 ) {
 	checks.MatchingServerName = serverName == keys.ServerName
-	checks.FutureValidUntilTS = keys.ValidUntilTS.Time().After(now)
+	// Compared as timestamps: a valid_until_ts in the upper half of the unsigned
+	// range wraps to a date before 1970 when it is turned into a time.Time.
+	checks.FutureValidUntilTS = now.UnixMilli() < 0 || keys.ValidUntilTS > spec.Timestamp(now.UnixMilli())
 	checks.AllChecksOK = checks.MatchingServerName && checks.FutureValidUntilTS
 
 	ed25519Keys = checkVerifyKeys(keys, &checks)
